@@ -39,7 +39,7 @@ HARNESSES = {
 PLAN = {
     'quick': [('w:gp1|gp2', 1, None), ('f2|gp1', 1, None), ('gp5|gp5', 1, None), ('w:gp5|gp5', 1, None)],
     'thorough': [('w:gp5|gp5', 1, None), ('w:f2|f2', 1, None), ('w:inv5|inv5', 1, None), ('f2|gp1', 1, None), ('gp5|gp5', 1, None), ('w:sw2|inv5', 1, None), ('w:f2,gp1|sq5', 1, None), ('gp1|gp2|f2', 1, None),
-                 ('hs2|call2', 1, None), ('div0|gp2', 1, None), ('f2|gp1', 2, 'cache'), ('gp5|gp5', 2, 'cache'), ('w:gp1|gp2', 2, None)],
+                 ('hs2|call2', 1, None), ('div0|gp2', 1, None), ('w:gp5|gp5', 2, 'cache'), ('f2|gp1', 2, 'cache'), ('gp5|gp5', 2, 'cache'), ('w:gp1|gp2', 2, None)],
 }
 _tier = ['quick']
 
